@@ -50,7 +50,7 @@ struct Runner {
 		unsigned nops = 1 + t.pick(30);
 		for(unsigned i = 0; i < nops; i++) {
 			int s = t.pick(S), d = t.pick(S), m = t.pick(2);
-			switch(t.pick(12)) {
+			switch(t.pick(15)) {
 			case 0: kill(s); if(can_lock(m)) { c.op("g%d = %s(m%d)", s, name(), m); slot[s] = c.make<G>(*mx[m]); gm[s] = m; owns[s] = true; } break;
 			case 1: kill(s); c.op("g%d = %s(dont_lock, m%d)", s, name(), m); slot[s] = c.make<G>(frg::dont_lock, *mx[m]); gm[s] = m; break;
 			case 2: kill(s); if(can_lock(m)) { c.op("g%d = %s(adopt_lock, m%d)", s, name(), m); raw_lock(m); slot[s] = c.make<G>(frg::adopt_lock, *mx[m]); gm[s] = m; owns[s] = true; } break;
@@ -63,6 +63,10 @@ struct Runner {
 			case 8: if(slot[s] && slot[d]) { c.op("swap(g%d, g%d)", s, d); if(d != s && (owns[s] || owns[d])) transfer = true; swap(*slot[s], *slot[d]); std::swap(gm[s], gm[d]); std::swap(owns[s], owns[d]); } break;
 			case 9: c.op("destroy g%d", s); kill(s); break;
 			case 10: if constexpr(!Shared) { kill(s); if(can_lock(m)) { c.op("g%d = guard(&m%d)", s, m); slot[s] = c.make<G>(frg::guard(mx[m])); gm[s] = m; owns[s] = true; } } break;
+			// misuse: the library refuses these through its assertion hook. Whether it refuses or not, acquire and release calls must stay
+			// balanced ("on every path"): the model treats the call as having no effect and check() compares the mutex with what the guards say.
+			case 12: if(slot[s] && owns[s]) { c.op("g%d.lock() although it owns the lock (misuse)", s); try { slot[s]->lock(); c.tag("misuse-not-refused"); } catch(Panic &) { c.tag("misuse-refused"); } } break;
+			case 13: if(slot[s] && !owns[s]) { c.op("g%d.unlock() although it does not own the lock (misuse)", s); try { slot[s]->unlock(); c.tag("misuse-not-refused"); } catch(Panic &) { c.tag("misuse-refused"); } } break;
 			default: if constexpr(!Shared) { kill(s); c.op("g%d = guard(dont_lock, &m%d)", s, m); slot[s] = c.make<G>(frg::guard(frg::dont_lock, mx[m])); gm[s] = m; } break;
 			}
 			check("the operation");
